@@ -476,6 +476,10 @@ func init() {
 	replayDrivers = append(replayDrivers, replayDriver{
 		match: func(n string) bool { return strings.Contains(n, "copyDBIntoSQLite#") && strings.Contains(n, "C15.") },
 		run: func(r *Report, o *Obligation, sr *SolveResult) ReplayResult {
+			if strings.Contains(o.Name, "iteration-errors") || strings.Contains(o.Name, "no-commit-after") {
+				out, conf := goReplay(r, "cmd/keymasterd", "keymasterd_storage_replay_test.go", "TestVerifReplaySyncInterruptedWhileReading", map[string]string{})
+				return ReplayResult{Confirmed: conf, Summary: replaySummary(out), Output: truncate(out, 4000), Driver: "TestVerifReplaySyncInterruptedWhileReading (history of the model: the row iteration over the source stops on an error; a fault-injecting database/sql driver plays the primary)"}
+			}
 			out, conf := goReplay(r, "cmd/keymasterd", "keymasterd_storage_replay_test.go", "TestVerifReplayCacheMirrorsDeletions", map[string]string{})
 			return ReplayResult{Confirmed: conf, Summary: replaySummary(out), Output: truncate(out, 4000), Driver: "TestVerifReplayCacheMirrorsDeletions (history of the model: a user and a signed record are deleted in the primary between two completed synchronisations)"}
 		},
